@@ -21,7 +21,7 @@ mkdir -p "$OUT"; cp "$SRC/patch.diff" "$SRC/demo.py" "$OUT/"; cp "$SRC/notes.md"
 import json, sys
 P, M, base, dc, dm, src, sline, dmsg = sys.argv[1:9]
 meta = {
-  "property": P, "id": f"{P}-{M}", "base_commit": base, "author": "independent sub-agent (saw only the property text)",
+  "property": P[:3], "id": f"{P}-{M}", "base_commit": base, "author": "independent sub-agent (saw only the property text)",
   "confirmed": {"demo_exit_clean_tree": int(dc), "demo_exit_with_patch": int(dm), "demo_tail_with_patch": dmsg,
                 "suite_exit_with_patch (4 offline network tests deselected)": int(src), "suite_summary": sline,
                 "commands": ["git apply patch.diff (scratch worktree under /tmp/wt)", "PYTHONPATH=<wt> /venv/bin/python demo.py",
